@@ -6,6 +6,8 @@ use crate::verdict::{self, Meta};
 use std::sync::Arc;
 use std::time::Instant;
 
+pub mod c13;
+pub mod c14;
 pub mod c20;
 
 #[derive(Clone, Copy)]
@@ -23,6 +25,8 @@ pub struct Stream {
     pub min_count: u64,
     pub budget_s: f64,
     pub run: ScenarioFn,
+    /// Run every scenario in a supervised child process (wall limit per child, seconds).
+    pub supervised: Option<f64>,
 }
 
 impl Stream {
@@ -37,7 +41,12 @@ impl Stream {
             min_count: count,
             budget_s: 900.0,
             run: Arc::new(run),
+            supervised: None,
         }
+    }
+    pub fn supervised(mut self, child_wall_limit_s: f64) -> Stream {
+        self.supervised = Some(child_wall_limit_s);
+        self
     }
     pub fn budget(mut self, s: f64, min_count: u64) -> Stream {
         self.budget_s = s;
@@ -60,12 +69,14 @@ pub struct Check {
 
 pub fn get(id: &str, tier: Tier) -> Option<Check> {
     Some(match id {
+        "C13" => c13::check(tier),
+        "C14" => c14::check(tier),
         "C20" => c20::check(tier),
         _ => return None,
     })
 }
 
-pub const ALL: &[&str] = &["C20"];
+pub const ALL: &[&str] = &["C13", "C14", "C20"];
 
 /// Stream-local seed for scenario `idx`.
 pub fn sseed(ctx: &Ctx, stream: &str, idx: u64) -> u64 {
@@ -103,7 +114,20 @@ pub fn run_check(id: &str, tier: Tier, seed: u64, only_stream: Option<&str>, evi
         let name = stream.name;
         let cfg = RunCfg::new(stream.count).budget(stream.budget_s, stream.min_count);
         let t = Instant::now();
-        let mut r = runner::run_parallel(cfg, move |idx| run(&ctx, idx));
+        let supervised = stream.supervised;
+        let check_id = check.id;
+        let mut r = runner::run_parallel(cfg, move |idx| match supervised {
+            None => run(&ctx, idx),
+            Some(limit) => crate::supervise::run_child(
+                check_id,
+                check_id,
+                name,
+                &ctx,
+                idx,
+                std::time::Duration::from_secs_f64(limit),
+                None,
+            ),
+        });
         // Prefix per-stream bookkeeping counters.
         let ran = r.counters.remove("scenarios_run").unwrap_or(0);
         r.add(&format!("stream_{name}_scenarios"), ran);
@@ -131,6 +155,34 @@ pub fn run_check(id: &str, tier: Tier, seed: u64, only_stream: Option<&str>, evi
         exhaustive: check.exhaustive,
     };
     verdict::conclude(meta, report)
+}
+
+/// Child side of a supervised stream: run one scenario in this process and write its report.
+pub fn worker(id: &str, tier: Tier, seed: u64, stream_name: &str, idx: u64, out: &str) -> i32 {
+    let Some(check) = get(id, tier) else {
+        return 3;
+    };
+    let ctx = Ctx { seed, tier };
+    for stream in check.streams {
+        if stream.name == stream_name {
+            let result = std::panic::catch_unwind(std::panic::AssertUnwindSafe(|| (stream.run)(&ctx, idx)));
+            let panics = runner::take_panics();
+            let mut report = match result {
+                Ok(r) => r,
+                Err(_) => Report::default(),
+            };
+            for (loc, msg) in panics {
+                if runner::is_harness_location(&loc) {
+                    report.inconclusive.push(format!("harness panic at {loc}: {msg}"));
+                } else {
+                    report.panics.push((loc, msg));
+                }
+            }
+            crate::supervise::write_report(out, &report);
+            return 0;
+        }
+    }
+    3
 }
 
 /// Re-run one scenario of one stream and print what it reports.
